@@ -28,6 +28,7 @@ import asyncio
 import importlib
 import json
 import pkgutil
+import re
 import textwrap
 from pathlib import Path
 
@@ -320,21 +321,24 @@ LOOKUP = "peer = self.network.verified_by_public_key_bin.get(auth.public_key_bin
 
 def _ops_of(stmts, payload_var: str, where: str) -> list[str]:
     ops = []
+    new_peer = "peer = Peer(auth.public_key_bin, source_address)"
+    peer_defaulted = False       # `peer` was replaced by Peer(auth.public_key_bin, …) when the lookup missed
     for st in stmts:
         if isinstance(st, ast.AnnAssign) and st.value is not None and isinstance(st.target, ast.Name) \
                 and st.target.id in ("peer", "unpacked", "output"):
             # a type annotation on a known local changes nothing: treat `x: T = e` as `x = e`
             st = ast.copy_location(ast.Assign(targets=[st.target], value=st.value), st)
             ast.fix_missing_locations(st)
-        s = _norm(st).replace(", data, 23)", ", data, offset=23)").replace(", remainder, 23)", ", remainder, offset=23)")
-        if s == UNPACK_AUTH:
-            ops.append(".unpackAuth 23")
+        s = re.sub(r", (data|remainder), (\d+)\)$", r", \1, offset=\2)", _norm(st))
+        m_auth = re.fullmatch(re.escape(UNPACK_AUTH).replace("offset=23", r"offset=(\d+)"), s)
+        m_dec = re.fullmatch(re.escape(f"unpacked = self.serializer.unpack_serializable_list({payload_var}, ")
+                             + r"(remainder|data), offset=(\d+)\)", s)
+        if m_auth:
+            ops.append(f".unpackAuth {int(m_auth.group(1))}")      # the offset is read from the source; the guard wants 23
         elif s == VERIFY:
             ops.append(".verify")
-        elif s == f"unpacked = self.serializer.unpack_serializable_list({payload_var}, remainder, offset=23)":
-            ops.append(".decode .remainder 23")
-        elif s == f"unpacked = self.serializer.unpack_serializable_list({payload_var}, data, offset=23)":
-            ops.append(".decode .data 23")
+        elif m_dec:
+            ops.append(f".decode .{m_dec.group(1)} {int(m_dec.group(2))}")
         elif isinstance(st, ast.Assign) and _norm(st.targets[0]) == "fmt" and payload_var == "fmt":
             if _norm(st.value) != "[GlobalTimeDistributionPayload, payload_class]":
                 raise TranslatorError(f"{where}: unexpected format list {_norm(st.value)}")
@@ -369,6 +373,16 @@ def _ops_of(stmts, payload_var: str, where: str) -> list[str]:
         elif isinstance(st, ast.If) and _norm(st.test) == "peer" and not st.orelse and len(st.body) == 1 \
                 and _norm(st.body[0]) == "peer.add_address(source_address)":
             ops.append(".touchPeer")    # mutates the STORED verified Peer: must not happen before the signature check
+        elif isinstance(st, ast.If) and _norm(st.test) == "peer" and len(st.body) == 1 \
+                and _norm(st.body[0]) == "peer.add_address(source_address)" \
+                and len(st.orelse) == 1 and _norm(st.orelse[0]) == new_peer:
+            ops.append(".touchPeer")    # `if peer: add_address else: peer = Peer(carried key)` = `peer or Peer(...)` later
+            peer_defaulted = True
+        elif isinstance(st, ast.If) and _norm(st.test) in ("peer is None", "not peer") and not st.orelse \
+                and len(st.body) == 1 and _norm(st.body[0]) == new_peer:
+            peer_defaulted = True
+        elif peer_defaulted and s in ("return func(self, peer, *unpacked)", "return func(self, peer, *output)"):
+            ops.append(".callPeer")
         elif isinstance(st, ast.Expr) and isinstance(st.value, ast.Call) and _norm(st.value.func).startswith("self.logger."):
             pass  # logging only
         elif s == "output = [*unpacked, data]":
@@ -469,16 +483,33 @@ def translate_on_packet() -> str:
                 and n.body[0].value is None):
             return False
         disj = n.test.values if isinstance(n.test, ast.BoolOp) and isinstance(n.test.op, ast.Or) else [n.test]
-        return any(_norm(d) in ("self._prefix != data[:22]", "data[:22] != self._prefix") for d in disj)
+        for d in disj:
+            txt = _norm(d)
+            for alias, bound in aliases.items():          # `prefix = data[:22]` earlier: read through the local name
+                txt = re.sub(rf"\b{re.escape(alias)}\b", f"data[:{bound}]", txt)
+            m = re.fullmatch(r"self\._prefix != data\[:(\d+)\]|data\[:(\d+)\] != self\._prefix", txt)
+            if m:
+                found["prefix_len"] = int(m.group(1) or m.group(2))
+                return True
+        return False
+    found: dict[str, int] = {}
+    aliases: dict[str, int] = {}
+    all_names = _assigned_names(fn)
+    for st in _stmts(fn):
+        m = re.fullmatch(r"(\w+) = data\[:(\d+)\]", _norm(st))
+        if m and all_names.get(m.group(1), 0) == 1:      # bound exactly once in the whole function
+            aliases[m.group(1)] = int(m.group(2))
     guards = [i for i, n in enumerate(_stmts(fn)) if is_prefix_guard(n)]
     if not guards:
         raise TranslatorError("Community.on_packet: unconditional prefix guard `if self._prefix != data[:22] …: return` "
                               "not found among the top-level statements")
-    if "msg_id = data[22]" not in src:
-        raise TranslatorError("Community.on_packet: `msg_id = data[22]` not found")
+    msg_stmt = next((x for x in src if re.fullmatch(r"msg_id = data\[(\d+)\]", x)), None)
+    if msg_stmt is None:
+        raise TranslatorError("Community.on_packet: `msg_id = data[<n>]` not found")
+    found["msg_off"] = int(re.fullmatch(r"msg_id = data\[(\d+)\]", msg_stmt).group(1))
     if "handler = self.decode_map[msg_id]" not in src:
         raise TranslatorError("Community.on_packet: handler lookup changed")
-    i_guard, i_msg = guards[0], src.index("msg_id = data[22]")
+    i_guard, i_msg = guards[0], src.index(msg_stmt)
     if not i_guard < i_msg:
         raise TranslatorError("Community.on_packet: prefix guard no longer precedes dispatch")
     for n in _stmts(fn)[:i_guard]:
@@ -497,8 +528,11 @@ def translate_on_packet() -> str:
             or names.get("handler", 0) != 1:
         raise TranslatorError(f"Community.on_packet: data/source_address/msg_id/handler are re-bound between the matched "
                               f"statements: {dict((k, names.get(k, 0)) for k in ('data', 'source_address', 'msg_id', 'handler'))}")
-    return ("/-- generated from Community.on_packet: `if self._prefix != data[:22]: return`, `msg_id = data[22]` -/\n"
-            "def prefixLen : Nat := 22\ndef msgIdOffset : Nat := 22")
+    # the two numbers are READ from the source (slice bound of the prefix comparison, index of the msg-id byte); the
+    # theorems conclude `data.take 22 = o.pfx` / `data[22]`, so another number breaks their proofs
+    return (f"/-- translated from Community.on_packet: `if self._prefix != data[:{found['prefix_len']}] …: return`, "
+            f"`msg_id = data[{found['msg_off']}]` -/\n"
+            f"def prefixLen : Nat := {found['prefix_len']}\ndef msgIdOffset : Nat := {found['msg_off']}")
 
 
 # ------------------------------------------------------------------------------------------------ F. raw discovery handler
